@@ -580,9 +580,12 @@ class _CUR(GreedySelector):
         initial importance.
         """
         for c in self.selected_idx_:
+            # an already orthogonalized item is zero up to rounding, which scales with
+            # the magnitude of the data: compare with the norm of the original item
             if self.recompute_every != 0 and (
                 np.linalg.norm(np.take(self.X_current_, [c], axis=self._axis))
                 > self.tolerance
+                * max(1.0, np.linalg.norm(np.take(X, [c], axis=self._axis)))
             ):
                 self._orthogonalize(last_selected=c)
 
@@ -761,9 +764,12 @@ class _PCovCUR(GreedySelector):
         their initial importance.
         """
         for c in self.selected_idx_:
+            # an already orthogonalized item is zero up to rounding, which scales with
+            # the magnitude of the data: compare with the norm of the original item
             if self.recompute_every != 0 and (
                 np.linalg.norm(np.take(self.X_current_, [c], axis=self._axis))
                 > self.tolerance
+                * max(1.0, np.linalg.norm(np.take(X, [c], axis=self._axis)))
             ):
                 self._orthogonalize(last_selected=c)
 
